@@ -1,4 +1,5 @@
 import TinyFlux.Lemmas.PropsAux
+import TinyFlux.Generated.IndexTables
 /-!
 # C01 — query results equal exactly the stored points that satisfy the query
 
@@ -66,6 +67,31 @@ theorem after_any_history (cfg : Cfg) (ops : List Op) (hok : OpsOK cfg ops) (q :
     ((runM (init cfg) ops).1.step (.search q m sorted)).2 = .points (Spec.search (runS [] ops).1 q m sorted) := by
   obtain ⟨hinv, hst, _⟩ := reachable cfg ops hok
   rw [search_refines _ hinv q m sorted hm, hst]
+
+/-! ## the hand-written model of the time search still mirrors the source
+
+`Model.Index.searchTs` was written against the operator → (helper, slice) table of
+`Index._search_timestamps` and the set algebra of `IndexResult`; both are regenerated from `index.py` on
+every run, and these equalities are re-checked by the kernel: an edit to a helper name, a slice bound or a
+set operation in the source breaks them (and `searchTs_spec` is a theorem about the model as written). -/
+
+theorem model_mirrors_ts_branch_table :
+    Generated.tsBranch =
+      [("eq", "find_eq", "results", "set([])"),
+       ("ne", "find_eq", "set(self._storage_pos_sorted_by_ts).difference(results)", "set(self._storage_pos_sorted_by_ts)"),
+       ("lt", "find_lt", "set(self._storage_pos_sorted_by_ts[:match + 1])", "set([])"),
+       ("le", "find_le", "set(self._storage_pos_sorted_by_ts[:match + 1])", "set([])"),
+       ("gt", "find_gt", "set(self._storage_pos_sorted_by_ts[match:])", "set([])"),
+       ("ge", "find_ge", "set(self._storage_pos_sorted_by_ts[match:])", "set([])")] ∧
+    Generated.tsHasGenericBranch = true ∧
+    Generated.tsOpSelection = ["op = query._operator if query.is_hashable() else None", "rhs = query._rhs"] := by
+  refine ⟨rfl, rfl, rfl⟩
+
+theorem model_mirrors_index_result_algebra :
+    Generated.indexResultOps =
+      [("__invert__", "set(range(self._index_count)).difference(self._items)", "self._index_count"),
+       ("__and__", "self._items.intersection(other._items)", "self._index_count"),
+       ("__or__", "self._items.union(other._items)", "self._index_count")] := rfl
 
 /-! non-vacuity: a reachable state with an out-of-order history meets the hypotheses -/
 example : OpsOK { autoIndex := true, norm := id }
